@@ -221,7 +221,7 @@ func verifModel_strings_ContainsAny(s, chars string) bool {
 func verifModel_strings_IndexAny(s, chars string) int {
 	for i := 0; i < len(chars); i++ {
 		if chars[i] >= 0x80 {
-			panic("verif model: strings.IndexAny with non-ASCII chars is not modelled")
+			verifModelUnsupported("strings.IndexAny with non-ASCII chars is not modelled")
 		}
 	}
 	for i := 0; i < len(s); i++ {
@@ -274,25 +274,29 @@ func verifIsASCIISpace(c byte) bool {
 	return c == ' ' || c == '\t' || c == '\n' || c == '\v' || c == '\f' || c == '\r'
 }
 
-// TrimSpace restricted to inputs whose non-ASCII bytes are not Unicode spaces
-// (U+0085, U+00A0, U+1680, U+2000.., U+3000): asserted by the model itself.
+// TrimSpace: one forward scan decoding runes (invalid bytes decode to U+FFFD, which is not a space).
 func verifModel_strings_TrimSpace(s string) string {
-	for i := 0; i < len(s); i++ {
-		if s[i] >= 0x80 {
-			r, _ := verifModel_utf8_DecodeRuneInString(s[i:])
-			if r == 0x85 || r == 0xA0 || r == 0x1680 || (r >= 0x2000 && r <= 0x200a) || r == 0x2028 || r == 0x2029 || r == 0x202f || r == 0x205f || r == 0x3000 {
-				panic("verif model: strings.TrimSpace with non-ASCII space is not modelled")
-			}
+	start, end := -1, 0
+	for i := 0; i < len(s); {
+		var r rune
+		n := 1
+		if s[i] < 0x80 {
+			r = rune(s[i])
+		} else {
+			r, n = verifModel_utf8_DecodeRuneInString(s[i:])
 		}
+		if !verifUnicodeIsSpace(r) {
+			if start < 0 {
+				start = i
+			}
+			end = i + n
+		}
+		i += n
 	}
-	lo, hi := 0, len(s)
-	for lo < hi && verifIsASCIISpace(s[lo]) {
-		lo++
+	if start < 0 {
+		return ""
 	}
-	for hi > lo && verifIsASCIISpace(s[hi-1]) {
-		hi--
-	}
-	return s[lo:hi]
+	return s[start:end]
 }
 
 func verifModel_utf8_RuneStart(b byte) bool { return b&0xC0 != 0x80 }
@@ -370,7 +374,7 @@ func verifModel_utf8_RuneCountInString(s string) int {
 func verifModel_strings_IndexRune(s string, r rune) int {
 	for i := 0; i < len(s); i++ {
 		if s[i] >= 0x80 {
-			panic("verif model: strings.IndexRune with non-ASCII s is not modelled")
+			verifModelUnsupported("strings.IndexRune with non-ASCII s is not modelled")
 		}
 		if rune(s[i]) == r {
 			return i
